@@ -223,6 +223,14 @@ Definition plsr_transform_entry (p : pprm) (a : pattrs) (X : tensor F) (Yo : opt
                         (firstn k' (map (c_yload (F:=F)) (comps (a_fit a)))))))
     end.
 
+(* CP_PLSR.score(X, Y) = R2_score(Y - Y_mean_, predict(X) - Y_mean_) = 1 - |predict(X) - Y|^2 / |Y - Y_mean_|^2
+   (T.norm(.) ** 2 is modelled as the sum of squares) for a matrix Y *)
+Definition plsr_score (a : pattrs) (X Y : tensor F) : F :=
+  let Pr := fit_predict Op (a_fit a) X in
+  let num := fsum_idx Op (shape Y) (fun J => let e := fsub Op (tget Op Pr J) (tget Op Y J) in fmul Op e e) in
+  let den := fsum_idx Op (shape Y) (fun J => let e := fsub Op (tget Op Y J) (tget Op (Y_mean_ (a_fit a)) (tl J)) in fmul Op e e) in
+  fsub Op (f1 Op) (fdiv Op num den).
+
 Record pobj := mkPobj { po_prm : pprm; po_attrs : option pattrs }.
 Inductive pcall :=
 | PFit (X Y : tensor F) | PPredict (X : tensor F) | PTransform (X : tensor F) (Yo : option (tensor F))
